@@ -8,14 +8,14 @@ import re
 from harness import core, htmlnorm, treegen, trees, xdoc
 
 GEN = ['gen_tables', 'gen_regex', 'gen_config', 'gen_escapes', 'gen_core']
-THEOREMS = ['C03_angle_link_in_sentence', 'C03_angle_link_instance', 'C03_fragment_autolink_instance', 'C03_autolink_in_sentence', 'C03_autolink_hypotheses', 'C03_titled_link_in_sentence', 'C03_titled_link_instance', 'C03_fragment_nested_emphasis_instance', 'C03_backslash_break', 'C03_backslash_break_hypotheses', 'C03_one_in_sentence', 'C03_fragment_one_instance', 'C03_fragment_breaks_instance', 'C03_breaks_in_paragraph_text', 'C03_breaks_instance', 'C03_image_in_sentence', 'C03_strike_in_sentence', 'C03_strike_in_sentence_hypotheses', 'C03_escape_in_sentence', 'C03_escape_in_sentence_hypotheses', 'C03_code_in_sentence', 'C03_code_in_sentence_hypotheses', 'C03_fragment_code_instance', 'C03_fragment_sentence_instance', 'C03_mixed_phrases', 'C03_mixed_phrases_instance', 'C03_link_phrases', 'C03_link_phrases_instance', 'C03_link_in_sentence', 'C03_fragment_link_instance', 'C03_fragment_seq_document', 'C03_fragment_seq_html', 'C03_fragment_lists_instance', 'C03_fragment_inert_instance', 'C03_fragment_emphasis_instance', 'C03_fragment_rules_instance', 'C03_thematic_break', 'C03_thematic_configs', 'C03_setext_heading', 'C03_setext_hypotheses', 'C03_indented_code_block', 'C03_indented_code_hypotheses', 'C03_link_scanners_are_the_source', 'C03_fragment_parses', 'C03_fragment_token_tree', 'C03_fragment_hypotheses', 'C03_fragment_fuel_suffices', 'C03_fragment_document',
+THEOREMS = ['C03_link_with_emphasis', 'C03_link_with_emphasis_instance', 'C03_angle_link_in_sentence', 'C03_angle_link_instance', 'C03_fragment_autolink_instance', 'C03_autolink_in_sentence', 'C03_autolink_hypotheses', 'C03_titled_link_in_sentence', 'C03_titled_link_instance', 'C03_fragment_nested_emphasis_instance', 'C03_backslash_break', 'C03_backslash_break_hypotheses', 'C03_one_in_sentence', 'C03_fragment_one_instance', 'C03_fragment_breaks_instance', 'C03_breaks_in_paragraph_text', 'C03_breaks_instance', 'C03_image_in_sentence', 'C03_strike_in_sentence', 'C03_strike_in_sentence_hypotheses', 'C03_escape_in_sentence', 'C03_escape_in_sentence_hypotheses', 'C03_code_in_sentence', 'C03_code_in_sentence_hypotheses', 'C03_fragment_code_instance', 'C03_fragment_sentence_instance', 'C03_mixed_phrases', 'C03_mixed_phrases_instance', 'C03_link_phrases', 'C03_link_phrases_instance', 'C03_link_in_sentence', 'C03_fragment_link_instance', 'C03_fragment_seq_document', 'C03_fragment_seq_html', 'C03_fragment_lists_instance', 'C03_fragment_inert_instance', 'C03_fragment_emphasis_instance', 'C03_fragment_rules_instance', 'C03_thematic_break', 'C03_thematic_configs', 'C03_setext_heading', 'C03_setext_hypotheses', 'C03_indented_code_block', 'C03_indented_code_hypotheses', 'C03_link_scanners_are_the_source', 'C03_fragment_parses', 'C03_fragment_token_tree', 'C03_fragment_hypotheses', 'C03_fragment_fuel_suffices', 'C03_fragment_document',
             'C03_fragment_html', 'C03_fragment_markdown_html', 'C03_fragment_html_instance', 'C03_fragment_paragraph_lines_instance', 'C03_fragment_headings_instance', 'C03_outline_lists', 'C03_outline_html', 'C03_outline_instance',
             'C03_fragment_document_markdown', 'C03_fragment_document_configs', 'C03_bounded_trees', 'C03_family_is_not_vacuous']
 TRUSTED = ['harness/treegen.py: the tree grammar, the speller (every free choice drawn and counted) and the direct HTML writer - the independent oracle; '
            'harness/htmlnorm.py: CommonMark\'s test normalisation',
            'Spec/Spell.v: the Coq twin of the grammar for the kernel sweep (independent of the parser model)',
            'the pipeline model (tied by X-doc on the generated texts); vm_compute for the sweep']
-ASSUMPTIONS = ['unbounded theorem on a fragment: paragraphs of one or more lines (inert delimiters; lines ending in spaces), one-line paragraphs with inline markup (emphasised phrases and links mixed, a code span, strikethrough, escape, image, link with a title (in double quotes, single quotes or parentheses), link with its destination between angle brackets, nested emphasis), ATX headings, thematic breaks, fenced code blocks, quotes and lists of one or more items (all markers, padding 1-4), any size and depth, '
+ASSUMPTIONS = ['unbounded theorem on a fragment: paragraphs of one or more lines (inert delimiters; lines ending in spaces), one-line paragraphs with inline markup (emphasised phrases and links mixed, a code span, strikethrough, escape, image, link with a title (in double quotes, single quotes or parentheses), link with its destination between angle brackets, link whose text holds emphasised phrases, nested emphasis), ATX headings, thematic breaks, fenced code blocks, quotes and lists of one or more items (all markers, padding 1-4), any size and depth, '
                'two lists never adjacent siblings: the block tokenizer returns exactly the pre-token tree written from the tree (C03_fragment_parses), and Document(lines) - with the fuel it really gives, proved sufficient - holds exactly the token tree written from the tree under every renderer\'s token sets (C03_fragment_document, _markdown), and the HTML renderer model writes for it exactly the HTML written directly from the tree, also when the text is one string (C03_fragment_html, C03_fragment_markdown_html); the fragment '
                'stream runs the same trees on the implementation',
                'PARTIAL beyond the fragment: in the kernel the HTML statement is bounded to the family stated in C03_bounded_trees; the full grammar is sampled on the implementation',
@@ -125,7 +125,7 @@ def frag_tree(rng, depth):
         if rng.random() < 0.12:                              # a one-line paragraph with a struck-through phrase, a backslash escape or an image (leaf FOne)
             pre = ' '.join([rng.choice(FRAG_FIRST)] + [rng.choice(EM_WORDS) for _ in range(rng.randint(0, 3))]) + rng.choice([' ', ' (', ', ', ': "', ''])
             post = rng.choice(['', '.', ' end', ', then more', ')', '" ok', '; z', '?x', 's'])
-            kind = rng.choice(['strike', 'esc', 'img', 'nest', 'tlink', 'auto', 'alink'])
+            kind = rng.choice(['strike', 'esc', 'img', 'nest', 'tlink', 'auto', 'alink', 'elink'])
             w = ' '.join(rng.choice(EM_INNER) for _ in range(rng.randint(1, 3)))
             x = ('strike', w) if kind == 'strike' else ('esc', rng.choice('!"#%\'()*+,-./:;=>?@[\\]^_}')) if kind == 'esc' else ('img', w, rng.choice(LINK_DESTS)) if kind == 'img' else _tlink(rng, w) if kind == 'tlink' else ('alink', w, rng.choice(ANGLE_DESTS)) if kind == 'alink' else ('auto', rng.choice(['http', 'https', 'ftp', 'mailto', 'x-1', 'a0']), rng.choice(['//ex.am/a-b?c=d#e', '//user@host.ex/p', 'me@ex.am', '//h', '', '/p/q.html', '//é.ex/中', 'a+b,c;d'])) if kind == 'auto' else None
             if kind == 'nest':          # an emphasised phrase holding emphasised phrases: (char, run length, text before, phrases, text after)
@@ -134,6 +134,10 @@ def frag_tree(rng, depth):
                 x = ('nest', rng.choice('*_'), rng.choice([1, 2]), aw() + rng.choice([' ', ', ', ': ', ' (']), phs, aw())
                 pre = pre if (pre[-1] in ' ("') else pre + ' '
                 post = post if (post == '' or post[0] in ' .,);"?') else ''
+            if kind == 'elink':         # a link whose text holds emphasised phrases: (text before, phrases each with the text after it, text after, destination)
+                aw = lambda: ' '.join(rng.choice([x_ for x_ in EM_INNER if x_[0].isalnum() and x_[-1].isalnum()]) for _ in range(rng.randint(1, 2)))
+                phs = [(rng.choice('*_'), rng.choice([1, 2]), aw(), rng.choice([' and ', ', ', '. Then ', ' (', ') ', ': "', '" ', ' ', '.'])) for _ in range(rng.randint(1, 3))]
+                x = ('elink', rng.choice(['', aw() + rng.choice([' ', ', ', ': ', ' ('])]), phs, rng.choice(['', aw()]), rng.choice(LINK_DESTS))
             return ('o', pre, x, post)
         if rng.random() < 0.12:                              # a paragraph whose lines are followed by any number of spaces (leaf FBrk)
             lines = [' '.join([rng.choice(FRAG_FIRST if i == 0 else FRAG_CONT)] + [rng.choice(EM_WORDS + EM_INNER) for _ in range(rng.randint(0, 3))]) for i in range(rng.randint(2, 4))]
@@ -225,6 +229,7 @@ def frag_gallina(t):
     if t[0] == 'o':
         x = t[2]
         gx = '(IStrike %s)' % _zl(x[1]) if x[0] == 'strike' else '(IEsc %d)' % ord(x[1]) if x[0] == 'esc' else '(IImg %s %s)' % (_zl(x[1]), _zl(x[2])) if x[0] == 'img' else '(ILinkT %s %s %d %s)' % (_zl(x[1]), _zl(x[2]), ord(x[4]), _zl(x[3])) if x[0] == 'tlink' else '(IAuto %d %s %s)' % (ord(x[1][0]), _zl(x[1][1:]), _zl(x[2])) if x[0] == 'auto' else '(ILinkA %s %d %s)' % (_zl(x[1]), ord(x[2][0]), _zl(x[2][1:])) if x[0] == 'alink' else \
+            '(ILinkE %s [%s] %s %s)' % (_zl(x[1]), '; '.join('(%d, %d%%nat, %s, %s)' % (ord(c), k - 1, _zl(w), _zl(t)) for c, k, w, t in x[2]), _zl(x[3]), _zl(x[4])) if x[0] == 'elink' else \
             '(INest %d %d %s [%s] %s)' % (ord(x[1]), x[2] - 1, _zl(x[3]), '; '.join('(%d, %d%%nat, %s, %s)' % (ord(c), k - 1, _zl(w), _zl(t)) for c, k, w, t in x[4]), _zl(x[5]))
         return '(FOne %d %s %s %s)' % (ord(t[1][0]), _zl(t[1][1:]), gx, _zl(t[3]))
     if t[0] == 'b':
@@ -388,6 +393,8 @@ def inl_text(x):
         return '<' + x[1] + ':' + x[2] + '>'
     if x[0] == 'tlink':
         return '[' + x[1] + '](' + x[2] + ' ' + x[4] + x[3] + (')' if x[4] == '(' else x[4]) + ')'
+    if x[0] == 'elink':
+        return '[' + x[1] + ''.join(c * k + w + c * k + t for c, k, w, t in x[2]) + x[3] + '](' + x[4] + ')'
     if x[0] == 'nest':
         return x[1] * x[2] + x[3] + ''.join(c * k + w + c * k + t for c, k, w, t in x[4]) + x[5] + x[1] * x[2]
     return '~~' + x[1] + '~~' if x[0] == 'strike' else '\\' + x[1] if x[0] == 'esc' else '![' + x[1] + '](' + x[2] + ')'
@@ -420,6 +427,13 @@ def frag_expect(t, ln):
             el = [trees.TAGS['Link'], x[2], x[3], 'uri', [], x[4], [[0, x[1]]]]
         elif x[0] == 'alink':
             el = [trees.TAGS['Link'], x[2], '', 'angle_uri', [], '', [[0, x[1]]]]
+        elif x[0] == 'elink':
+            kids, g = [], x[1]
+            for pc_, pk_, pw_, pt_ in x[2]:
+                kids += ([[0, g]] if g else []) + [[trees.TAGS['Strong' if pk_ == 2 else 'Emphasis'], pc_, [[0, pw_]]]]
+                g = pt_
+            kids += [[0, g + x[3]]]
+            el = [trees.TAGS['Link'], x[4], '', 'uri', [], '', kids]
         elif x[0] == 'nest':
             kids, g = [], x[3]
             for pc_, pk_, pw_, pt_ in x[4]:
@@ -502,6 +516,9 @@ def frag_html(t, tight):
             mid = '<a href="%s">%s</a>' % (html_mod.escape(quote(x[2], safe='/#:()*?=%@+,&;')), esc(x[1]))
         elif x[0] == 'tlink':
             mid = '<a href="%s" title="%s">%s</a>' % (html_mod.escape(quote(x[2], safe='/#:()*?=%@+,&;')), html_mod.escape(x[3]), esc(x[1]))
+        elif x[0] == 'elink':
+            tg = lambda k: 'strong' if k == 2 else 'em'
+            mid = '<a href="%s">' % html_mod.escape(quote(x[4], safe='/#:()*?=%@+,&;')) + esc(x[1]) + ''.join('<%s>%s</%s>' % (tg(k), esc(w), tg(k)) + esc(t) for c, k, w, t in x[2]) + esc(x[3]) + '</a>'
         elif x[0] == 'nest':
             tg = lambda k: 'strong' if k == 2 else 'em'
             mid = '<%s>' % tg(x[2]) + esc(x[3]) + ''.join('<%s>%s</%s>' % (tg(k), esc(w), tg(k)) + esc(t) for c, k, w, t in x[4]) + esc(x[5]) + '</%s>' % tg(x[2])
